@@ -33,6 +33,7 @@
 #  include <unifex/linux/safe_file_descriptor.hpp>
 
 #  include <atomic>
+#  include <cerrno>
 #  include <cstddef>
 #  include <cstdint>
 #  include <optional>
@@ -550,6 +551,10 @@ class io_epoll_context::read_sender {
       UNIFEX_ASSERT(context_.is_running_on_io_thread());
 
       auto result = readv(fd_, buffer_, 1);
+      if (result < 0) {
+        // readv/writev report failure as -1 and errno
+        result = -errno;
+      }
 
       if (result == -EAGAIN || result == -EWOULDBLOCK || result == -EPERM) {
         UNIFEX_ASSERT(
@@ -626,6 +631,10 @@ class io_epoll_context::read_sender {
           self.context_.epollFd_.get(), EPOLL_CTL_DEL, self.fd_, &event);
 
       auto result = readv(self.fd_, self.buffer_, 1);
+      if (result < 0) {
+        // readv/writev report failure as -1 and errno
+        result = -errno;
+      }
       UNIFEX_ASSERT(result != -EAGAIN);
       UNIFEX_ASSERT(result != -EWOULDBLOCK);
       if (result == -ECANCELED) {
@@ -789,6 +798,10 @@ class io_epoll_context::write_sender {
       UNIFEX_ASSERT(context_.is_running_on_io_thread());
 
       auto result = writev(fd_, buffer_, 1);
+      if (result < 0) {
+        // readv/writev report failure as -1 and errno
+        result = -errno;
+      }
 
       if (result == -EAGAIN || result == -EWOULDBLOCK || result == -EPERM) {
         UNIFEX_ASSERT(
@@ -865,6 +878,10 @@ class io_epoll_context::write_sender {
       }
 
       auto result = writev(self.fd_, self.buffer_, 1);
+      if (result < 0) {
+        // readv/writev report failure as -1 and errno
+        result = -errno;
+      }
       UNIFEX_ASSERT(result != -EAGAIN);
       UNIFEX_ASSERT(result != -EWOULDBLOCK);
       if (result == -ECANCELED) {
